@@ -446,7 +446,7 @@ func runC04(c *Ctx) {
 			okDefer := false
 			ast.Inspect(rt.Body(), func(n ast.Node) bool {
 				if d, ok := n.(*ast.DeferStmt); ok {
-					if fl, ok := d.Call.Fun.(*ast.FuncLit); ok && strings.Contains(types.ExprString(fl), "") {
+					if fl, ok := d.Call.Fun.(*ast.FuncLit); ok {
 						found := false
 						ast.Inspect(fl.Body, func(m ast.Node) bool {
 							if as, ok := m.(*ast.AssignStmt); ok && len(as.Lhs) == 1 && strings.HasSuffix(types.ExprString(as.Lhs[0]), ".limitSid") {
